@@ -38,7 +38,7 @@ def main():
             rc, o = sh("/venv/bin/python -m pytest -q -p no:cacheprovider tests 2>&1 | tail -1", cwd="/repo")
             res["tests"] = o.strip()[-60:]
             for c in checks:
-                for seed in ("0", "1"):
+                for seed in (os.environ.get("BENIGN_SEEDS", "0,1").split(",")):
                     rc, o = sh("./check %s" % c, VERIF, env=dict(os.environ, VERIF_SEED=seed))
                     viol = [l for l in o.splitlines() if l.startswith("VIOLATION")]
                     summ = [l for l in o.splitlines() if " ok " in l or " FAIL " in l]
